@@ -7,6 +7,8 @@ import PySMT.Impl.Parser
                           → `ok <n> <command>*n` | `err <class>` | `lex <hex message>` | `out-of-fragment`
 * `readstd <hex text>` : the standard reader `Std.stepStd` command by command, with the terms it elaborates
                           → `ok <n> <item>*n` | `err <k> <hex message>` | `lex <hex message>`
+* `stdlive <hex text>` : `Std.runStd` on the whole text; the conjunction of the assertions in force at the end
+                          → `ok <n> <term>` (n live assertions) | `err <hex message>` | `lex <hex message>`
 
 ```
 command := L <hex|-> | P <hex name> <k> <hex>*k | U <int> | O <int> | DS <hex> <arity> | FS <hex> <ty>
@@ -89,11 +91,26 @@ def readstd (text : String) : String :=
     | .ok items => s!"ok {items.length}" ++ String.join (items.map (fun i => " " ++ i))
     | .error (k, e) => s!"err {k} {hex e}"
 
+/-- the conjunction of the assertions in force after the whole script, for the standard's interpreter (`Std.runStd`) -/
+def stdlive (text : String) : String :=
+  match Sexp.read text with
+  | .error e => s!"lex {hex e}"
+  | .ok cmds =>
+    match Std.runStd cmds with
+    | .ok st =>
+      let t : Term := match st.live with
+        | [] => Term.tt
+        | [t] => t
+        | ts => .node .and ts .none
+      s!"ok {st.live.length} {encTerm t}"
+    | .error e => s!"err {hex e}"
+
 def main : IO Unit := loop fun line =>
   let toks := Wire.tokens line
   match toks[0]?, toks[1]?, toks.size with
   | some "pread", some h, 2 => (match unhex h with | .ok t => pread t | .error _ => "bad-op")
   | some "readstd", some h, 2 => (match unhex h with | .ok t => readstd t | .error _ => "bad-op")
+  | some "stdlive", some h, 2 => (match unhex h with | .ok t => stdlive t | .error _ => "bad-op")
   | _, _, _ => match coreAnswer toks with
     | some a => a
     | none => "bad-op"
